@@ -23,6 +23,8 @@ func main() {
 		c10Main()
 	case "c08":
 		c08Main()
+	case "c08-emit":
+		c08Emit()
 	case "c09":
 		c09Main()
 	case "c09-child":
